@@ -344,8 +344,19 @@ func (m *Manager) GetStats() (*Stats, error) {
 	var key uint32 = 0
 	var stats Stats
 
-	if err := m.stats.Lookup(&key, &stats); err != nil {
+	// antispoof_stats is a per-CPU array: one value per possible CPU,
+	// read into a slice and aggregated
+	var perCPU []Stats
+	if err := m.stats.Lookup(&key, &perCPU); err != nil {
 		return nil, err
+	}
+	for _, s := range perCPU {
+		stats.PacketsAllowed += s.PacketsAllowed
+		stats.PacketsDropped += s.PacketsDropped
+		stats.PacketsLogged += s.PacketsLogged
+		stats.IPv4Violations += s.IPv4Violations
+		stats.IPv6Violations += s.IPv6Violations
+		stats.UnknownMAC += s.UnknownMAC
 	}
 
 	return &stats, nil
